@@ -167,13 +167,36 @@ func checkHuntMAC(c *Ctx, rule string, fn *ssa.Function) {
 	}
 	r.Add(core.Obligation{Rule: rule, Key: rule + " " + core.FuncName(fn) + " hunts 6-byte MACs only", Func: core.FuncName(fn), Pos: c.P.Pos(core.PosOf(goIns)), Status: st,
 		Basis: "the loop is started under len(addr.MAC) == 6", Detail: "the spoof loop is started without a test that the MAC has 6 bytes (guards: " + guardTexts(gs) + "): an empty or short MAC passes, the Ethernet destination of the forged frames is then left as the pooled buffer held it - possibly the MAC of a host that is not hunted"})
+	// the places that keep the address: the start of the loop and the insertion into the hunt list
+	keepers := []ssa.Instruction{goIns}
+	core.EachInstr(fn, func(i ssa.Instruction) {
+		switch t := i.(type) {
+		case *ssa.MapUpdate:
+			if strings.HasSuffix(norm(t.Map), ".huntList") {
+				keepers = append(keepers, i)
+			}
+		case *ssa.Call:
+			if cal := t.Common().StaticCallee(); cal != nil && cal.Name() == "Add" && len(t.Common().Args) > 0 && strings.HasSuffix(norm(t.Common().Args[0]), ".huntList") {
+				keepers = append(keepers, i)
+			}
+		}
+	})
 	copied := false
 	core.EachInstr(fn, func(i ssa.Instruction) {
 		s, ok := i.(*ssa.Store)
 		if !ok || !regexp.MustCompile(`^local\(\w+\)\.MAC$`).MatchString(norm(s.Addr)) {
 			return
 		}
-		if strings.HasPrefix(norm(s.Val), "packet.CopyMAC(") && (i.Block() == goIns.Block() || i.Block().Dominates(goIns.Block())) {
+		if !strings.HasPrefix(norm(s.Val), "packet.CopyMAC(") {
+			return
+		}
+		all := true
+		for _, k := range keepers {
+			if !core.InstrDominates(i, k) {
+				all = false
+			}
+		}
+		if all {
 			copied = true
 		}
 	})
